@@ -535,6 +535,105 @@ func fertiliserPredictionTermination(c *core.Ctx, bin string, ws *workspace) {
 	}
 	validateBatches(c, outs, []string{"B_ActiveBound", "B_NoDuplicates", "B_Lifecycle", "B_Terminates", "B_NoFailure"}, "C11-prediction")
 	c.Cover("prediction_runs", len(outs))
+	prognoseConformance(c)
+}
+
+// prognoseConformance: Prognose.tla (the end-date machine of the fertiliser-prediction mode: the prediction date rewrites
+// the end date of the run, the loop condition is what ends a run whose end date was moved behind the current day) is
+// explored by TLC for every placement of the prediction date, its control (loop without the condition) must be refuted,
+// and real runs in prediction mode with the prediction date at many placements must be behaviours of it (Trace_Prognose).
+func prognoseConformance(c *core.Ctx) {
+	if c.Replay != "" {
+		return
+	}
+	d := c.TLC(core.TLCOpts{Module: "MC_Prognose", Cfg: "Prognose_design.cfg", Kind: "design", Workers: 4, Timeout: 10 * time.Minute})
+	if !d.OK() {
+		c.Machineryf("design-level prediction-mode model: exit=%d %s\n%s", d.Exit, d.Violated, d.Tail(12))
+	}
+	u := c.TLC(core.TLCOpts{Module: "MC_Prognose", Cfg: "Prognose_design_noguard.cfg", Kind: "design-control", Workers: 4, Timeout: 10 * time.Minute})
+	c.Cover("design_control_day_loop_without_condition_refuted", u.Violated == "P_Bounded")
+	if u.Violated != "P_Bounded" {
+		c.Machineryf("control failed: the day loop without its condition should leave the horizon in prediction mode (exit=%d %s)", u.Exit, u.Violated)
+	}
+	worker, err := c.BuildWorker(false)
+	if err != nil {
+		c.Machineryf("%v", err)
+		return
+	}
+	var ps []*gen.Project
+	n := c.Pick(8, 40)
+	for i := 0; i < n; i++ {
+		r := rngFor(c, 3100+int64(i/4))
+		var p *gen.Project
+		for try := 0; try < 30; try++ {
+			p = gen.Random(r, fmt.Sprintf("pg%d_%d", c.Seed, i), gen.Opts{Years: 3, MinLayers: 6, MaxLayers: 12, Crops: []string{"WW"}, ETMethods: []int{3}, DateFormats: []int{1, 3}})
+			if len(p.Rotation) >= 2 {
+				break
+			}
+		}
+		if len(p.Rotation) < 2 {
+			continue
+		}
+		sow, harv := p.Rotation[1].Sow, p.Rotation[1].Harv
+		// the prediction date anywhere between a month after sowing and the week before harvest
+		pd := sow + 30 + ((harv-7-sow-30)*(i%8))/7 + r.Intn(5)
+		p.Cfg.VirtualDate = gen.DateText(pd, p.Cfg.DateFormat, "")
+		p.Cfg.Lat100 = []int{5250, 4500, 5600, 3100, 6000}[(i/8)%5]
+		p.NoWarm = true
+		p.Arms = []string{fmt.Sprintf("prediction date %d days after sowing, %d before harvest, latitude %d", pd-sow, harv-pd, p.Cfg.Lat100)}
+		ps = append(ps, p)
+	}
+	skip := "day.top,day.weather,day.gw,day.inputs,day.evatra,day.steps,sub.pre,sub.water,sub.crop,nitro.mineral,nitro.move,sub.nitro,day.denit"
+	cases := execAll(c, worker, ps, skip, nil, 3*time.Minute)
+	conform, drift := 0, 0
+	parallel(len(cases), 8, func(i int) {
+		rc := cases[i]
+		evs, _ := core.ReadNDJSON(rc.Trace)
+		var cfg map[string]interface{}
+		var days []map[string]interface{}
+		var end map[string]interface{}
+		var ernte interface{}
+		for _, e := range evs {
+			switch e["ev"] {
+			case "run.config":
+				cfg = e
+			case "day.end":
+				if pg, ok := e["pg"].(map[string]interface{}); ok {
+					days = append(days, e)
+					if fmt.Sprint(e["zeit"]) == fmt.Sprint(pg["prognos"]) {
+						ernte = pg["ernte"]
+					}
+				}
+			case "run.end":
+				end = e
+			}
+		}
+		if cfg == nil || len(days) == 0 || end == nil || ernte == nil {
+			return // not a prediction run (the date fell outside the simulated period)
+		}
+		dir := c.Sub(fmt.Sprintf("prog-%d", i))
+		tf := filepath.Join(dir, "prog.ndjson")
+		var sb strings.Builder
+		wr := func(m map[string]interface{}) { b, _ := json.Marshal(m); sb.Write(b); sb.WriteByte('\n') }
+		wr(map[string]interface{}{"ev": "prog", "begin": cfg["begin"], "ende0": cfg["ende"], "ernte": ernte, "sow": rc.P.Rotation[1].Sow, "prognos": cfg["prognos"], "p1": cfg["p1"], "p2": cfg["p2"], "run": rc.P.Name})
+		for _, e := range days {
+			wr(map[string]interface{}{"ev": "day.end", "zeit": e["zeit"], "ende": e["ende"], "pg": e["pg"]})
+		}
+		wr(map[string]interface{}{"ev": "run.end", "ok": end["ok"]})
+		os.WriteFile(tf, []byte(sb.String()), 0644)
+		run := c.TLC(core.TLCOpts{Module: "Trace_Prognose", Cfg: "Trace_Prognose.cfg", Kind: "trace-prognose", Workers: 1, Timeout: 10 * time.Minute, Files: map[string]string{"trace.ndjson": tf}, Heap: "2g"})
+		switch {
+		case run.OK():
+			conform++
+		case run.IsViolation():
+			drift++
+			l, _ := run.AliasInt("l")
+			fmt.Printf("MODEL-DRIFT module=Prognose run=%s statement=%s line=%d %v: %s\n", rc.P.Name, run.Violated, l, rc.P.Arms, strings.TrimSpace(core.LineOf(tf, l)))
+		default:
+			c.Machineryf("%s: prediction-mode trace validation failed: exit=%d\n%s", rc.P.Name, run.Exit, run.Tail(15))
+		}
+	})
+	c.Cover("prognose_conformance", map[string]int{"runs": len(cases), "conforming": conform, "drift": drift})
 }
 
 // runBatchDeadline is runBatch with its own deadline; lines marked "skipcmp" are valid lines without a solo reference.
